@@ -448,7 +448,7 @@ func TestC01(t *testing.T) {
 	ck := hx.Check[c01Case]{
 		Property: "C01", Part: "layouts",
 		Rule:  "accepting generated worlds (1-3 steps, 0-2 logging inspections, 1-3 layout signers from RSA/ECDSA/Ed25519 pool keys, both wrappers, both entry points) x one alteration of signed content (JSON-tree mutator over every field, DSSE payload bytes, in-memory object), of the signature list (drop/flip/swap/retarget/empty/junk-first) or of the supplied key set (empty/add non-signer/stranger/swapped public material/subset), plus neutral re-serialisations; plus a sweep of every (field, mutation kind) of a fixed layout; non-trivial = alteration turning ground truth to 'not ok', or a neutral re-serialisation; distinct by case JSON",
-		Cases: hx.Pick(600, 20000),
+		Cases: hx.Pick(600, 60000),
 		Gen:   c01Gen, Run: c01Run,
 	}
 	if hx.ReplayRequested() == "" {
